@@ -65,7 +65,8 @@ type Frame struct {
 	closures    map[types.Object]*ast.FuncLit
 	ghostCells  map[string]*Cell
 	callOrds    map[*ast.CallExpr]int
-	loopEntries map[int]*State // state at first entry of loop N (for entry(N, e) in invariants)
+	snapshots   map[string]*State // named ghost snapshots (at call N snapshot S)
+	loopEntries map[int]*State    // state at first entry of loop N (for entry(N, e) in invariants)
 }
 
 func NewInterp(w *World) *Interp {
@@ -624,6 +625,11 @@ func (in *Interp) freeze(v Val, t types.Type, st *State, f *Frame) Term {
 		}
 		return App("mk_"+s, s, args...)
 	case PtrV:
+		if _, isIface := t.Underlying().(*types.Interface); isIface {
+			in.D.declareSort("Iface")
+			in.D.declareFun("box_Ref", []string{SRef}, "Iface")
+			return App("box_Ref", "Iface", in.refOf(x))
+		}
 		if pt, ok := t.Underlying().(*types.Pointer); ok && in.isValuelike(pt.Elem()) {
 			s := in.sortOf(t)
 			in.note("pointers to immutable records / scalars are stored in containers by value (nil flag + pointee); assumption: the pointee is not mutated afterwards")
